@@ -22,13 +22,14 @@ Proof.
   cbn in *. unfold parser_same. auto 10.
 Qed.
 
-Lemma read_line_KI pre k ev rest' nfd' :
-  KI k -> ev_ok BUF (k_conn k) ev -> KI (fst (fst (read_line BUF pre k ev rest' nfd'))).
+Lemma read_line_KI hold pre k ev rest' nfd' :
+  KI k -> ev_ok BUF (k_conn k) ev -> KI (fst (fst (read_line BUF hold pre k ev rest' nfd'))).
 Proof.
   intros [ph I] Hok. unfold read_line.
   destruct (try_read_total BUF BUF_min BUF_u32 (k_conn k) ph ev I Hok) as (c1 & res & sys & ph1 & T & I1 & _).
-  rewrite T. destruct (drain (S (length (c_parsed c1))) c1 []) as [c2 reqs] eqn:D.
-  pose proof (drain_parser_same (S (length (c_parsed c1))) c1 []) as [PS _]. rewrite D in PS. cbn [fst] in *.
+  rewrite T. set (fu := if hold then O else S (length (c_parsed c1))).
+  destruct (drain fu c1 []) as [c2 reqs] eqn:D.
+  pose proof (drain_parser_same fu c1 []) as [PS _]. rewrite D in PS. cbn [fst] in *.
   exists ph1. cbn [k_conn]. eapply CInv_parser_same; eauto.
 Qed.
 
@@ -39,7 +40,7 @@ Proof.
 Qed.
 
 (* the read results the scripted stream produces are within the recvmsg contract *)
-Lemma take_step_KI pre k n nf : KI k -> KI (fst (fst (take_step BUF pre k n nf))).
+Lemma take_step_KI hold pre k n nf : KI k -> KI (fst (fst (take_step BUF hold pre k n nf))).
 Proof.
   intros HK. unfold take_step.
   destruct (BUF <=? length (c_win (k_conn k)))%nat eqn:E; [apply read_line_KI; [exact HK|exact Logic.I]|].
@@ -54,8 +55,8 @@ Lemma drain_reads_KI : forall fuel pre k n, KI k -> KI (fst (drain_reads BUF fue
 Proof.
   induction fuel as [|f IH]; intros pre k n HK; cbn [drain_reads]; [exact HK|].
   destruct (k_rest k); [exact HK|].
-  pose proof (take_step_KI pre k n 0 HK) as H1.
-  destruct (take_step BUF pre k n 0) as [[k' line] ok]. cbn [fst] in H1.
+  pose proof (take_step_KI false pre k n 0 HK) as H1.
+  destruct (take_step BUF false pre k n 0) as [[k' line] ok]. cbn [fst] in H1.
   destruct ok; [|exact H1]. specialize (IH pre k' n H1). destruct (drain_reads BUF f pre k' n) as [k'' ls]. exact IH.
 Qed.
 
@@ -82,10 +83,10 @@ Proof.
           | apply drain_reads_KI; exact HK
           | apply set_write_KI; exact HK
           | apply set_max_KI; exact HK
-          | match goal with |- context [take_step BUF ?p k ?n ?nf] =>
-              pose proof (take_step_KI p k n nf HK) as H1; destruct (take_step BUF p k n nf) as [[k' line] ok]; exact H1 end
-          | match goal with |- context [read_line BUF ?p k ?ev ?r ?f] =>
-              pose proof (read_line_KI p k ev r f HK Logic.I) as H1; destruct (read_line BUF p k ev r f) as [[k' line] ok]; exact H1 end ].
+          | match goal with |- context [take_step BUF ?hd ?p k ?n ?nf] =>
+              pose proof (take_step_KI hd p k n nf HK) as H1; destruct (take_step BUF hd p k n nf) as [[k' line] ok]; exact H1 end
+          | match goal with |- context [read_line BUF ?hd ?p k ?ev ?r ?f] =>
+              pose proof (read_line_KI hd p k ev r f HK Logic.I) as H1; destruct (read_line BUF hd p k ev r f) as [[k' line] ok]; exact H1 end ].
 Qed.
 
 (* the state after any list of operations *)
